@@ -41,3 +41,15 @@ contract(F, "DisjointUnionStrategy.shifts", props=["C10", "C02"],
          raises=[("StrategyDoesNotApply", "is_none(children) and is_none(decomp(self, comb_class))")],
          ensures=[f"len(result) == len({_EFF})",
                   "forall(lambda i: implies(0 <= i and i < len(result), result[i] == 0))"])
+
+# ------------------------------------------------------------------ the fixed flags of the library's strategy base classes
+# products and unions are two-way, reversible and may be equivalences; verification strategies are none of these (a
+# verification rule is never reversed and never merged into an equivalence class)
+from .common import CombClass as _CCs
+for _cls, _val in (("CartesianProductStrategy", True), ("DisjointUnionStrategy", True), ("VerificationStrategy", False)):
+    if _cls not in REG.classes:
+        klass(F, _cls, fields={})
+    for _m, _ps in (("can_be_equivalent", {}), ("is_two_way", {"comb_class": _CCs}), ("is_reversible", {"comb_class": _CCs})):
+        contract(F, f"{_cls}.{_m}", props=["C10", "C02", "C05"], params=dict({"self": Obj(_cls)}, **_ps), returns=Bool,
+                 ensures=[f"result == {_val}"], modifies=[], self_invariant=False,
+                 notes="constant flag of the base class")
